@@ -156,6 +156,7 @@ func (e *Engine) VerifyFunc(key string) {
 		}
 	}
 	fx.entry = st.clone()
+	fx.entryBind = bind
 	fx.oldState = fx.entry
 	if fx.con != nil && (fx.con.Trusted || fx.con.NoVerify) {
 		e.Assumptions["contract of "+key+" is assumed (body not verified)"] = true
